@@ -579,7 +579,41 @@ def discharge_partial(an, prog, b, blk, t, c, cls, why):
                         sn = next(iter(cv))
         if dn is not None and dn == sn:
             return True, "equal lengths: destination is a [_; %d] array, source is the %d bytes produced by take(%d)" % (dn, sn, sn)
+        # destination `arr[a..b]` with constant a, b; source the `[u8; K]` produced by uN::to_be_bytes / octets
+        d2 = peel(an.op(b, t["args"][0]), mutlocal=False)
+        while d2[0] in ("ref", "deref"):
+            d2 = peel(d2[1], mutlocal=False)
+        if d2[0] == "call" and d2[2] is not None and re.search(r"::index(_mut)?$", d2[2].npath) and len(d2[3]) == 2:
+            rng = peel(d2[3][1])
+            if rng[0] == "agg" and str(rng[1]).endswith("ops::Range") and len(rng[3]) == 2:
+                lo, hi = const_eval(peel(rng[3][0], widen=True)), const_eval(peel(rng[3][1], widen=True))
+                if lo and hi and len(lo) == 1 and len(hi) == 1:
+                    dn = next(iter(hi)) - next(iter(lo))
+        s2 = peel(an.op(b, t["args"][1]))
+        while s2[0] in ("ref", "deref") or (s2[0] == "cast" and str(s2[1]).startswith("PointerCoercion")):
+            s2 = peel(s2[1] if s2[0] != "cast" else s2[2])
+        if s2[0] == "call" and s2[2] is not None:
+            m2 = re.match(r"^core::(num|f32|f64)::<impl ([uif]\d+)>::to_(be|le|ne)_bytes$", s2[2].npath)
+            if m2:
+                sn = {"u8": 1, "i8": 1, "u16": 2, "i16": 2, "u32": 4, "i32": 4, "f32": 4, "u64": 8, "i64": 8, "f64": 8, "u128": 16, "i128": 16}.get(m2.group(2))
+            elif s2[2].npath == "std::net::Ipv4Addr::octets":
+                sn = 4
+            elif s2[2].npath == "std::net::Ipv6Addr::octets":
+                sn = 16
+        if dn is not None and sn is not None and dn == sn and dn >= 0:
+            return True, "equal lengths: destination is a constant %d-byte range, source is a [u8; %d]" % (dn, sn)
         return False, "copy_from_slice with lengths not shown equal (destination %s, source %s): %s" % (dn, sn, why)
+    if cls == "index" and re.search(r"<impl std::ops::Index(Mut)?<I> for \[T; N\]>::index(_mut)?$", c.npath) and len(t["args"]) == 2 and len(c.args or []) == 3:
+        # `arr[a..b]` on a fixed-size array with constant bounds a <= b <= N
+        try:
+            nlen = int(str(c.args[2]))
+        except ValueError:
+            nlen = None
+        rng = peel(an.op(b, t["args"][1]))
+        if nlen is not None and rng[0] == "agg" and str(rng[1]).endswith("ops::Range") and len(rng[3]) == 2:
+            lo, hi = const_eval(peel(rng[3][0], widen=True)), const_eval(peel(rng[3][1], widen=True))
+            if lo and hi and len(lo) == 1 and len(hi) == 1 and 0 <= next(iter(lo)) <= next(iter(hi)) <= nlen:
+                return True, "constant range %d..%d of a [_; %d] array" % (next(iter(lo)), next(iter(hi)), nlen)
     if cls == "index":
         idx = [str(a) for a in (c.args or []) + (c.syn_args or [])]
         if any(a.strip() == "std::ops::RangeFull" for a in idx):
